@@ -1,4 +1,5 @@
 Require Export Sop.base.VecQ.
 Load "gen/NmrUtilsBody".
 Load "model/TensorFrameBody".
+Load "model/DescriptorsBody".
 Definition encf (F : frame) : list Z := let '(a,b,c) := F in enc3 a ++ enc3 b ++ enc3 c.
